@@ -103,7 +103,7 @@ def _dictcomp_over_items(ex, e, g, st, d):
     t = g.target
     if not (isinstance(t, ast.Tuple) and len(t.elts) == 2 and all(isinstance(x, ast.Name) for x in t.elts)
             and isinstance(e.key, ast.Name) and e.key.id == t.elts[0].id and isinstance(e.value, ast.Name) and e.value.id == t.elts[1].id):
-        raise Unsupported('dict comprehension over items() that is not a key filter')
+        return _dictcomp_over_items_general(ex, e, g, st, d)
     kq = fresh('kq', StringSort())
     base = st.copy(); base.env[t.elts[0].id] = ZV('str', kq); base.env[t.elts[1].id] = ZV('val', Opt.v(d.arr[kq]))
     cond = BoolVal(True)
@@ -112,6 +112,46 @@ def _dictcomp_over_items(ex, e, g, st, d):
         if len(res) != 1 or isinstance(res[0][1], Raise): raise Unsupported('comprehension filter with several outcomes')
         cond = And(cond, truth(res[0][1], res[0][0]))
     return [(st, PDict(z3.Lambda([kq], If(And(Opt.is_Some(d.arr[kq]), cond), d.arr[kq], Opt.Absent))))]
+
+
+def _dictcomp_over_items_general(ex, e, g, st, d):
+    """{k: f(k, v) for k, v in d.items() [if cond]} with the loop's key variable as the key: the value expression is evaluated for one
+    arbitrary present key; its normal outcomes (pure: they may not change the state) are merged into one conditional term over that key;
+    an exceptional outcome becomes "raises if some present key takes that path"."""
+    t = g.target
+    if not (isinstance(t, ast.Tuple) and len(t.elts) == 2 and all(isinstance(x, ast.Name) for x in t.elts)
+            and isinstance(e.key, ast.Name) and e.key.id == t.elts[0].id):
+        raise Unsupported('dict comprehension over items() whose key is not the loop variable')
+    kq = fresh('kq', StringSort())
+    base = st.copy(); base.assume(Opt.is_Some(d.arr[kq]))
+    base.env[t.elts[0].id] = ZV('str', kq); base.env[t.elts[1].id] = ZV('val', Opt.v(d.arr[kq]))
+    npc = len(base.pc)
+    cond = BoolVal(True)
+    for test in g.ifs:
+        res = ex.ev(test, base)
+        if len(res) != 1 or isinstance(res[0][1], Raise): raise Unsupported('comprehension filter with several outcomes')
+        cond = And(cond, truth(res[0][1], res[0][0]))
+    sel = base.copy(); sel.assume(cond)
+    res = ex.ev(e.value, sel)
+    normal = [(s2, v) for s2, v in res if not isinstance(v, Raise)]
+    raising = [(s2, v) for s2, v in res if isinstance(v, Raise)]
+    if not normal: raise Unsupported(f'comprehension element without a normal outcome (line {e.lineno})')
+    for s2, v in normal:
+        if any(not arr.eq(st.heap.get(c, arr)) for c, arr in s2.heap.items() if c in st.heap) or not s2.tn.eq(st.tn):
+            raise Unsupported(f'comprehension element with side effects (line {e.lineno})')
+    val = to_val(normal[-1][1], normal[-1][0])
+    for s2, v in reversed(normal[:-1]):
+        val = If(And(*s2.pc[npc + 1:]), to_val(v, s2), val)
+    outs = [(st, PDict(z3.Lambda([kq], If(And(Opt.is_Some(d.arr[kq]), cond), Opt.Some(val), Opt.Absent))))]
+    if raising:
+        ok = outs[0][0].copy()
+        for s_bad, r in raising:
+            ok.assume(ForAll([kq], Implies(And(Opt.is_Some(d.arr[kq]), cond), Not(And(*s_bad.pc[npc + 1:])))))
+            bad = st.copy(); kb = fresh('kbad', StringSort())
+            bad.assume(*[z3.substitute(c, (kq, kb)) for c in s_bad.pc[npc - 1:]]); bad.label(f'L{e.lineno}.comp:raises')
+            if ex.feasible(bad): outs.append((bad, r))
+        outs[0] = (ok, outs[0][1])
+    return outs
 
 
 def _dictcomp_over_map(ex, e, g, st, m):
